@@ -22,7 +22,7 @@ RULE = ("topo: every digraph on <=3 (quick) / <=4 (thorough) labelled nodes incl
         "resolver-history: every history of add_node / add_dependency / resolve_build_order of length <=5 (thorough 6) on one resolver over two nodes sharing a name, <=3 (4) over three, "
         "plus random histories over up to 9 nodes whose (name, path, kind) identities collide on the name; graph-history: every history of add_dependency / add_dependencies / "
         "topological_sort_types of length <=3 (4) over two names plus random ones over up to 9 names, interleaved with add_resolved_type (is_enum true / false) and add_type_definition; "
-        "node paths are drawn from spellings of the same file (backslashes, ./ prefix, doubled slash, case, empty). A case is non-trivial when it has at least "
+        "node labels include module-qualified spellings (a::T<k>, b::T<k>) sharing their last segment with plain labels; node paths are drawn from spellings of the same file (backslashes, ./ prefix, doubled slash, case, empty). A case is non-trivial when it has at least "
         "one edge; distinct = distinct (graph, request) pairs")
 TRUSTED = ["Spec/P20.v boolean checkers are the run-time oracle applied to the implementation's answers; proved equivalent to the Prop statements (C20_topo_oracle_exact, C20_kahn_oracle_exact)"]
 ASSUMPTIONS = ["HashSet iteration order of an unmodified set is stable between two traversals (used to feed the observed order to the model)", "the implementation iterates each set either in its hash order or in sorted name order; any other deterministic order would show as a correspondence break (no-failing-input-found), not as a property violation"]
@@ -61,6 +61,12 @@ def topo_cases(tier, rng):
         # requests and dependencies may name nodes without an entry in the map
         if rng.random() < 0.2:
             req.append(n + rng.randint(0, 2))
+        if rng.random() < 0.3:
+            # relabel some nodes with module-qualified spellings (a::T<k>, b::T<k>) next to plain T<k>
+            m = {i: rng.choice([i, 100 + rng.randrange(n), 200 + rng.randrange(n)]) for i in range(n)}
+            if len(set(m.values())) == n:
+                edges = [(m[a], m[b]) for a, b in edges]
+                req = [m.get(r, r) for r in req]
         cases.append({"adj": adj_of(n, edges), "req": sorted(set(req)), "reps": 3, "n": n})
     # beyond the small scope: long chains, ladders, deep trees and large cycles (the theorems are
     # unbounded; a depth guard or a quadratic blow-up only shows at sizes like these)
@@ -307,10 +313,24 @@ def ghist_cases(tier, rng):
             if ops[-1][0] != "s":
                 continue
             cases.append({"ops": [list(o) for o in ops]})
+    # the same small scope over a plain label and a qualified label with the same last segment
+    qs = [10, 110]
+    qsub = [[], [10], [110], [10, 110]]
+    qal = [["d", a, b] for a in qs for b in qs] + [["ds", a, s] for a in qs for s in qsub] + [["s", s] for s in qsub[1:]]
+    for L in range(1, 4):
+        for ops in itertools.product(qal, repeat=L):
+            if ops[-1][0] == "s":
+                cases.append({"ops": [list(o) for o in ops]})
     nrand = 3000 if tier == "quick" else 60000
     for _ in range(nrand):
         n = rng.randint(2, 9)
         pool = rng.sample(range(10, 100), n)
+        if rng.random() < 0.5:
+            # module-qualified labels sharing their last segment with a plain label (and each other)
+            for k in rng.sample(pool, min(len(pool), rng.randint(1, 3))):
+                pool.append(100 + k)
+                if rng.random() < 0.5:
+                    pool.append(200 + k)
         ops = []
         for _ in range(rng.randint(2, 3 * n)):
             x = rng.random()
